@@ -1,5 +1,59 @@
 /-
-  DDS.Proofs.GenProtoStore — the REGENERATED protobuf conversions of the stores against the hand-written model.
+  DDS.Proofs.GenProtoStore — the REGENERATED protobuf conversions of the stores (`DDS/Generated/CodeDenseProto.lean`,
+  `CodeSparseProto.lean`, `CodePaginatedProto.lean`, `CodeStoreProto.lean`, `CodeDenseFromProto.lean`; messages mirrored
+  in `DDS/Model/GoPb.lean`) against the hand-written model (`DDS/Model/Proto.lean`).
+
+  EMBEDDING.  The regenerated store units keep exact weights (`GoPb.Store Rat`), the model's abstract message `PbStore`
+  keeps binary64 bit patterns; `pbOfGo : GoPb.Store Rat → PbStore` (weights through `ratBits`, the `int32` offset as
+  its value) is the abstraction, `toF64` turns an exact message into the float message the generic `MergeWithProto`
+  reads.  `wrap32 i` is Go's `int32(i)` (`= i.bmod 2^32`, `= i` for an int32 — `wrap32_of_I32 / _of_Idx32`).
+
+  1. `ToProto`
+     dense      `dense_toProto` (store empty or `minIndex ≤ maxIndex`; no loop, any fuel): `= toRes id (denseMsg s)` —
+                the window read as ONE slice expression is the model's index-by-index read (`slice_eq_mapM`), panic
+                exactly where the model panics; `denseMsg_model` (`pbOfGo` of it = `storeToProto (.d s)` with the
+                offset through `wrap32`), `denseMsg_model32` / `dense_toProto_model` (= the model's message under
+                `StoreKeys32`), side conditions from `DStore.Inv` (`dense_side_of_inv`, `dense_keys32_of_inv`).
+     paginated  `pag_toProto` (EVERY store and capacity, NO invariant, fuel `len(buffer) + 1`): empty store ↦ the empty
+                message and the store untouched; otherwise `(toGen s.sortRead cap, sparseMsg (msetFrom [] s.binsList))`,
+                the store with its buffer sorted and the map `binCounts[int32(i)] = c` over the model's bins.
+                `pag_toProto_model`: bins key-sorted with int32 keys (true under `PStore.Inv`, `pag_side_of_inv`) ⟹ the
+                map IS the list of bins and `pbOfGo` of the message is `storeToProto (.pg s)`.
+     sparse     `sparse_toProto` (every store, oracle, fuel), `sparse_toProto_model` (`RepS`, EVERY lawful order,
+                int32 keys): the message is `sparseMsg c`, abstraction `storeToProto (.sp c)`.  Order independence:
+                `msetFrom_perm / msetFrom_of_perm` (distinct keys written in any order give the sorted content).
+  2. `MergeWithProto`
+     generic    `mergeWithProto_eq_fold` (EVERY implementation `S`, receiver, message, oracle, fuel):
+                `= .ok (addAll store (msgCalls ord pb))`, the fold of `AddWithCount` over the calls of the message (map
+                entries in the oracle's order with `int32` keys, then contiguous count number `k` at `k + offset`);
+                `addAll_rel` (parametricity); `fromProto_eq`: `FromProto = .ok (addAll NewDenseStore calls)`;
+                `dense_fromProto_sim`: with an instance running the regenerated dense `AddWithCount` the result is the
+                image of the model's dense store built by the same merge.
+     on the model's stores (`instance : StoreI Store`), ANY kind, EVERY oracle: `mergeWithProto_good_store` — good
+                receiver holding `clamp E`, finite weights `≥ 0`, int32 indexes unless the weight is 0 ⟹ never panics,
+                good store of the same kind holding `clamp (E.merge (msgBins ord pb))`.  The bins ADD UP (C09):
+                `lookup_msgBins`, `lookup_merge_msgBins` (map entries + contiguous counts, index by index, any lawful
+                order), `merge_order_irrelevant` (the merged content does not depend on the oracle: the order only
+                permutes adds, `sparseBins_perm`).
+     paginated  `pag_mergeWithProto_eq` (every store/message/oracle/fuel): `= gAdds …` the regenerated `AddWithCount`
+                on the calls; `gAdds_sim` (NO invariant): follows the model's adds under SOME compaction schedule
+                (`Sched`; the bit `len == cap` is hidden runtime state), panic iff the model panics, never out of fuel
+                for `pagFuel s calls ≤ fuel` (maximum of `GenPag.addFuel` over the stores reachable under either bit —
+                a function of store and calls); `sched_content`, `pag_mergeWithProto` (`Inv`, weights `≥ 0`, int32
+                indexes): result `toGen s' cap'`, `Inv s'`, `content s' = (content s).merge calls`.
+  3. reading back (`msgCalls_sparseMsg`, `merge_nil_perm`, `merge_nil_of_lookup`, `consumer_roundtrip`): used by
+     `DDS/Props/C09GenStore.lean`.
+
+  DIFFERENCES FOUND (kernel-checked, none reachable under the store invariants)
+  * `invertedEx_gen / _model`: a non-empty dense store with `maxIndex < minIndex - 1`: Go's `make` panics on the
+    negative length, the model reads an empty window and answers.  Hence the hypothesis of `dense_toProto`.
+  * `wrapEx_gen / _model`: the dense offset goes through `int32` (`2^31 ↦ -2^31`), the model's message keeps the
+    unbounded index; `sparse_wrap_example`: `{0 ↦ 1, 2^32 ↦ 2}` travels as `{0 ↦ 2}` (keys collide after the wrap).
+    Under int32 indexes (all store invariants) there is no wrap.
+  * zero-weight bins of a message are no-ops on both sides; negative weights are outside the model's contract
+    (`BinsOK`), non-finite weights are ignored by `instance : StoreI Store` and excluded by `Finite`.
+  NOT DONE: the link `Proto.mergeWithProto st (bit-pattern message)` = the fold here (needs bit round-trip of weights);
+  dense → dense round trip through the window's zero bins (only the lookup-form `consumer_roundtrip` is provided).
 -/
 import DDS.Generated.CodeDenseProto
 import DDS.Generated.CodeSparseProto
@@ -891,5 +945,26 @@ theorem consumer_roundtrip (k : StoreKind) (hk : KindOK k) (c : Content) (hc : c
   rw [a4, msgBins_toF64, clamp_new, merge_nil_of_lookup c hc _ (fun p hp => (hok p hp).1) hl]
 
 end consumer
+
+/-! ## 7. `FromProto` on the regenerated dense store -/
+
+section denseFrom
+open DDS.GenDense DDS.GenDecodeWrap
+
+/-- `FromProto` with any instance whose `AddWithCount` runs the regenerated dense `AddWithCount` (`DenseAdds`, e.g.
+    `GenDecodeWrap.denseI`): the result is the image of the plain dense model store that the generic `MergeWithProto`
+    builds from `Store.new .dense` on the model side — every message, oracle, fuel -/
+theorem dense_fromProto_sim (I : StoreI GS) (hI : DenseAdds I) (fuel : Nat) (ord : MapOrder) (pb : GoPb.Store F64) :
+    ∃ d : DStore, @Gen.DenseFromProto.FromProto I fuel ord pb = .ok (toGen d) ∧ d.kind = .plain ∧
+      Gen.StoreProto.MergeWithProto fuel ord (Store.new .dense) pb = .ok (.d d) := by
+  have h0 : DRel Gen.Dense.NewDenseStore (Store.new .dense) := ⟨DStore.new .plain, newDenseStore_eq, rfl, rfl⟩
+  have h := @addAll_rel GS Store I _ DRel
+    (fun g st i c hr => drel_step I hI g st (i, some c) hr) (msgCalls ord pb) _ _ h0
+  obtain ⟨d, h1, h2, h3⟩ := h
+  refine ⟨d, ?_, h3, ?_⟩
+  · rw [fromProto_eq, h1]
+  · rw [mergeWithProto_eq_fold, h2]
+
+end denseFrom
 
 end DDS.GenProtoStore
